@@ -33,9 +33,10 @@ ShortFrames ==
     <<32, 5, 0, 0, 2, 37, 2>>,                  \* must reject: boolean 2
     <<32, 4, 0, 0, 1, 4>>,                      \* must reject: undefined identifier
     <<32, 5, 0, 0, 2, 36, 2>>,                  \* either: maximum QoS 2
-    <<66, 2, 0, 1>> }                           \* either: reserved header flags
+    <<66, 2, 0, 1>>,                            \* either: reserved header flags
+    <<192, 128, 0>>, <<224, 128, 128, 0>>, <<64, 130, 0, 0, 1>> }   \* either: remaining length not in its minimal form
 
-FramesUpTo(n) == {f \in ShortFrames : Framed(f) /\ Len(f) <= n}
+FramesUpTo(n) == {f \in ShortFrames : Delimited(f) /\ Len(f) <= n}
 
 (* all compositions of n into positive parts *)
 RECURSIVE Compositions(_)
@@ -86,7 +87,16 @@ BigPlans(len, hl) ==
   IN {[chunks |-> cmp, fate |-> "eof", with |-> w] : cmp \in comps, w \in BOOLEAN}
      \cup {[chunks |-> WithZeros(cmp, zs, 1), fate |-> "eof", with |-> FALSE] :
             cmp \in two \cup three, zs \in {{1}, {2}, {1, 2}, {3}}}
-SchedBigCases == IF 3 \in TYPES THEN {[kind |-> "schedbig", n |-> n] : n \in BigLens} ELSE {}
+SchedBigCases == IF 3 \in TYPES THEN {[kind |-> "schedbig", n |-> n] : n \in BigLens} \cup (IF Thorough THEN {[kind |-> "schedhuge", n |-> 1052672]} ELSE {}) ELSE {}
+SchedHugeProg(x) ==
+  LET f == BigFrame(x.n)
+      head == Len(f) - 4096
+      tail == FlattenSteps([i \in 1..128 |-> <<0, 32>>])
+      plans == << [chunks |-> <<head>> \o tail, fate |-> "eof", with |-> FALSE],
+                  [chunks |-> <<1, 0, 0, head - 1>> \o tail, fate |-> "eof", with |-> TRUE] >> IN
+  [fam |-> "sched", meta |-> [len |-> Len(f), huge |-> TRUE],
+   steps |-> Contig(f) \o FlattenSteps([i \in 1..Len(plans) |-> <<[op |-> "Stream", stream |-> 1, bytes |-> f, reader |-> plans[i]],
+                                                                    [op |-> "ReadPacket", h |-> 2, stream |-> 1]>>])]
 SchedBigProg(x) ==
   LET f == BigFrame(x.n)
       plans == SetToSeq(BigPlans(Len(f), Len(f) - x.n - 6)) IN
@@ -132,6 +142,7 @@ FaultProg(x) ==
 (* the same bodies under type nibbles whose layout is empty or optional: a decoder must still take the announced bytes *)
 Retyped == {<<b>> \o Tail(f) : b \in {0, 192, 208, 224, 240}, f \in {x \in ShortFrames : Framed(x) /\ Len(x) \in 3..7}}
 SeqFrames == {f \in ShortFrames : Len(f) <= 9} \cup (IF Thorough THEN Retyped ELSE {})
+             \cup {<<64, 6, 0, 7, 0, 2, 11, 99>>, <<50, 8, 0, 1, 97, 0, 7, 2, 11, 5>>, <<0, 3, 9, 8, 7>>}   \* accepted foreign id; PUBLISH with one; type 0
 Trailers == {<<>>, <<48>>, <<64, 2, 0>>, <<255, 255, 255, 255, 255, 1>>}
 SeqCases ==
   {[kind |-> "seq", fs |-> fs, tr |-> tr, with |-> FALSE] :
@@ -145,8 +156,8 @@ SeqProg(x) ==
   LET bytes == Concat(x.fs) \o x.tr
       nreads == Len(x.fs) + 2 IN
   [fam |-> "seq", meta |-> [n |-> Len(x.fs), tr |-> Len(x.tr)],
-   steps |-> <<IF x.with THEN [op |-> "Stream", stream |-> 1, bytes |-> bytes, reader |-> [chunks |-> <<>>, fate |-> "eof", with |-> TRUE]]
-                         ELSE [op |-> "Stream", stream |-> 1, bytes |-> bytes]>>
+   steps |-> <<IF x.with THEN [op |-> "Stream", stream |-> 1, bytes |-> bytes, reader |-> [chunks |-> <<>>, fate |-> "eof", with |-> TRUE], observe |-> "all"]
+                         ELSE [op |-> "Stream", stream |-> 1, bytes |-> bytes, observe |-> "all"]>>
              \o [i \in 1..nreads |-> [op |-> "ReadPacket", h |-> i, stream |-> 1]]]
 
 (***************************************************************************)
@@ -168,7 +179,15 @@ BodiesFor(t) ==
 FirstCases == {[kind |-> "first", b |-> b, body |-> body] : b \in {x \in 0..255 : x \div 16 \in TYPES \cup (IF 1 \in TYPES THEN {0} ELSE {})},
                                                             body \in UNION {BodiesFor(t) : t \in 0..15}}
 FirstValid(x) == x.body \in BodiesFor(x.b \div 16)
-FirstProg(x) == ReadProg("first", <<x.b>> \o VBI(Len(x.body)) \o x.body, [b |-> x.b])
+FirstProg(x) ==
+  LET f == <<x.b>> \o VBI(Len(x.body)) \o x.body IN
+  [fam |-> "first", meta |-> [b |-> x.b],
+   steps |-> << [op |-> "Stream", stream |-> 1, bytes |-> f \o <<208, 0>> \o <<32, 3, 0, 0, 0>>, observe |-> "all"],
+                [op |-> "ReadPacket", h |-> 1, stream |-> 1], [op |-> "Diag", h |-> 1],
+                [op |-> "ReadPacket", h |-> 2, stream |-> 1], [op |-> "ReadPacket", h |-> 3, stream |-> 1],
+                \* the same frame again, a zero-length read before its first byte and before its body
+                [op |-> "Stream", stream |-> 1, bytes |-> f, reader |-> [chunks |-> <<0, 1, 0, 1, 0>>, fate |-> "eof", with |-> FALSE]],
+                [op |-> "ReadPacket", h |-> 4, stream |-> 1] >>]
 
 (***************************************************************************)
 (* family "wf": the grids of C17                                           *)
@@ -378,7 +397,8 @@ OwnProg(x) ==
                      [op |-> "Unmarshal", h |-> 1, buf |-> 1, key |-> "into"],
                      [op |-> "WriteTo", h |-> 11], [op |-> "WriteTo", h |-> 21],
                      [op |-> "Scribble", buf |-> 1],
-                     [op |-> "WriteTo", h |-> 11], [op |-> "New", h |-> 22, type |-> tn], [op |-> "Diag", h |-> 22]>>]
+                     [op |-> "WriteTo", h |-> 11], [op |-> "New", h |-> 22, type |-> tn], [op |-> "Diag", h |-> 22],
+                     [op |-> "WriteTo", h |-> 22]>>]
   ELSE IF x.kind = "ownall" THEN            \* the body of a given to UnmarshalBinary of every type, then overwritten
      [fam |-> "own", meta |-> [kind |-> x.kind],
       steps |-> <<[op |-> "Buf", buf |-> 1, bytes |-> BodyOf(x.a), observe |-> "all"],
@@ -475,6 +495,75 @@ ConcProg(x) ==
                 \o (IF ~x.pre /\ shared THEN <<>> ELSE <<[op |-> "Diag", h |-> 1]>>)]
 
 (***************************************************************************)
+(* family "reuse": the caller keeps and reuses what it handed to a setter: *)
+(* a TopicFilter value, a []TopicFilter passed with "...", the filter list *)
+(* of a decoded SUBSCRIBE forwarded into new packets, a will attached      *)
+(* again after being completed (C12, C14, C02)                             *)
+(***************************************************************************)
+RefCall(h, m, hs) == [op |-> "Call", h |-> h, m |-> m, args |-> [i \in 1..Len(hs) |-> [h |-> hs[i]]], refs |-> TRUE]
+ReuseCases == {[kind |-> "reuse", n |-> n, k |-> k] : n \in 1..5, k \in 1..4}
+Names == <<Txt(9), Txt(9), Txt(4), Txt(12), Txt(2)>>
+Name(j, k) == [i \in 1..Len(Names[((j + k) % 5) + 1]) |-> Names[((j + k) % 5) + 1][i] + (IF i = Len(Names[((j + k) % 5) + 1]) THEN j ELSE 0)]
+ReuseProg(x) ==
+  [fam |-> "reuse", meta |-> [kind |-> x.kind, n |-> x.n, k |-> x.k],
+   steps |->
+     IF x.n = 1 THEN       \* one TopicFilter value renamed and added again, k + 1 times
+        <<[op |-> "NewFilter", h |-> 5, args |-> <<Name(0, x.k), 1>>, observe |-> "all"], [op |-> "New", h |-> 1, type |-> "Subscribe"],
+          CallOp(1, "SetPacketID", <<7>>)>>
+        \o FlattenSteps([j \in 1..(x.k + 1) |-> <<CallOp(5, "SetFilter", <<Name(j, x.k)>>), CallOp(5, "SetOptions", <<j % 3>>), RefCall(1, "AddFilters", <<5>>)>>])
+        \o <<CallOp(5, "SetFilter", <<Txt(1)>>), [op |-> "WriteTo", h |-> 1], [op |-> "Stream", stream |-> 1, from |-> 1],
+             [op |-> "ReadPacket", h |-> 9, stream |-> 1]>>
+     ELSE IF x.n = 2 THEN  \* a decoded SUBSCRIBE with k + 1 filters forwarded into two new packets, which then grow
+        LET fs == [j \in 1..(x.k + 1) |-> <<Name(j, x.k), j % 3>>]
+            f == Encode([t |-> 8, fl |-> 2, v |-> [PacketID |-> 3, Props |-> <<>>, Filters |-> fs]]) IN
+        <<[op |-> "Stream", stream |-> 1, bytes |-> f, observe |-> "all"], [op |-> "ReadPacket", h |-> 1, stream |-> 1],
+          [op |-> "New", h |-> 2, type |-> "Subscribe"], [op |-> "New", h |-> 3, type |-> "Subscribe"],
+          [op |-> "CallSpread", h |-> 2, m |-> "AddFilters", from |-> 1, key |-> "Filters"],
+          [op |-> "CallSpread", h |-> 3, m |-> "AddFilters", from |-> 1, key |-> "Filters"],
+          CallOp(2, "AddFilters", << <<Txt(5), 1>> >>), CallOp(3, "AddFilters", << <<Txt(6), 2>> >>),
+          CallOp(1, "AddFilters", << <<Txt(7), 0>> >>),
+          CallOp(2, "SetPacketID", <<4>>), [op |-> "WriteTo", h |-> 2], [op |-> "WriteTo", h |-> 3], [op |-> "WriteTo", h |-> 1]>>
+     ELSE IF x.n = 3 THEN  \* one scratch slice reused to build several packets
+        <<[op |-> "Slice", h |-> 6, args |-> [j \in 1..x.k |-> <<Name(j, x.k), 1>>], observe |-> "all"],
+          [op |-> "New", h |-> 1, type |-> "Subscribe"], [op |-> "CallSpread", h |-> 1, m |-> "AddFilters", from |-> 6, key |-> ""],
+          [op |-> "SliceSet", h |-> 6, n |-> 0, args |-> << <<Txt(3), 2>> >>],
+          [op |-> "New", h |-> 2, type |-> "Subscribe"], [op |-> "CallSpread", h |-> 2, m |-> "AddFilters", from |-> 6, key |-> ""],
+          CallOp(1, "AddFilters", << <<Txt(8), 0>> >>),
+          [op |-> "SliceSet", h |-> 6, n |-> x.k, args |-> << <<Txt(2), 1>> >>],
+          CallOp(1, "SetPacketID", <<1>>), CallOp(2, "SetPacketID", <<2>>),
+          [op |-> "WriteTo", h |-> 1], [op |-> "WriteTo", h |-> 2]>>
+     ELSE IF x.n = 4 THEN  \* the same will attached again after it was completed; and replaced by another will
+        <<[op |-> "New", h |-> 1, type |-> "Connect", observe |-> "all"], [op |-> "Pub", h |-> 2, args |-> <<x.k % 3, Txt(3), Bin(6)>>],
+          CallOp(1, "SetWill", <<[h |-> 2]>>), CallOp(2, "SetPayload", <<Bin(x.k + 1)>>), CallOp(2, "SetQoS", <<(x.k + 1) % 3>>),
+          CallOp(2, "SetRetain", <<x.k % 2 = 0>>), CallOp(1, "SetWill", <<[h |-> 2]>>),
+          [op |-> "WriteTo", h |-> 1], [op |-> "Stream", stream |-> 1, from |-> 1], [op |-> "ReadPacket", h |-> 9, stream |-> 1],
+          [op |-> "Pub", h |-> 3, args |-> <<(x.k + 2) % 3, Txt(2), <<>>>>], CallOp(1, "SetWill", <<[h |-> 3]>>),
+          [op |-> "WriteTo", h |-> 1], [op |-> "Stream", stream |-> 1, from |-> 1], [op |-> "ReadPacket", h |-> 8, stream |-> 1]>>
+     ELSE                  \* byte slices handed to setters of two packets built next to each other
+        <<[op |-> "New", h |-> 1, type |-> "Publish", observe |-> "all"], [op |-> "New", h |-> 2, type |-> "Publish"],
+          CallOp(1, "SetTopicName", <<Name(1, x.k)>>), CallOp(2, "SetTopicName", <<Name(2, x.k)>>),
+          CallOp(1, "SetResponseTopic", <<Name(3, x.k)>>), CallOp(2, "SetResponseTopic", <<Name(4, x.k)>>),
+          CallOp(1, "SetContentType", <<Name(2, x.k)>>), CallOp(1, "SetContentType", <<Txt(2)>>),
+          CallOp(2, "SetContentType", <<Name(1, x.k)>>),
+          [op |-> "WriteTo", h |-> 1], [op |-> "WriteTo", h |-> 2]>>]
+
+(***************************************************************************)
+(* family "many": valid frames whose lists are long (C05: work and memory  *)
+(* proportional to the frame; C03: still decoded exactly)                  *)
+(***************************************************************************)
+ManyNs == IF Thorough THEN {100, 1000, 10000} ELSE {100, 1000}
+UPs(n) == [i \in 1..n |-> PV(38, <<<<107, 48 + (i % 10)>>, <<118>>>>)]
+ManyCases == IF 1 \in TYPES THEN {[kind |-> "many", n |-> n, w |-> w] : n \in ManyNs, w \in 1..6} ELSE {}
+ManyPkt(x) ==
+  IF x.w = 1 THEN [t |-> 3, fl |-> 0, v |-> [TopicName |-> Txt(3), Props |-> UPs(x.n), Payload |-> Bin(4)]]
+  ELSE IF x.w = 2 THEN [t |-> 14, fl |-> 0, v |-> [ReasonCode |-> 0, Props |-> UPs(x.n)]]
+  ELSE IF x.w = 3 THEN [t |-> 8, fl |-> 2, v |-> [PacketID |-> 1, Props |-> UPs(x.n \div 10), Filters |-> [i \in 1..x.n |-> <<<<102, 48 + (i % 10)>>, i % 3>>]]]
+  ELSE IF x.w = 4 THEN [t |-> 9, fl |-> 0, v |-> [PacketID |-> 1, Props |-> <<>>, ReasonCodes |-> [i \in 1..x.n |-> i % 3]]]
+  ELSE IF x.w = 5 THEN [t |-> 3, fl |-> 0, v |-> [TopicName |-> Txt(3), Props |-> [i \in 1..x.n |-> PV(11, 1 + (i % 100))], Payload |-> <<>>]]
+  ELSE [t |-> 10, fl |-> 2, v |-> [PacketID |-> 1, Props |-> <<>>, Filters |-> [i \in 1..x.n |-> <<102, 48 + (i % 10)>>]]]
+ManyProg(x) == ReadProg("many", Encode(ManyPkt(x)), [kind |-> x.kind, n |-> x.n, w |-> x.w])
+
+(***************************************************************************)
 Cases2 ==
   IF FAMILY = "sched" THEN SchedCases \cup SchedBigCases
   ELSE IF FAMILY = "fault" THEN FaultCases \cup FaultBigCases
@@ -485,6 +574,8 @@ Cases2 ==
   ELSE IF FAMILY = "wfault" THEN WFaultCases \cup (IF 1 \in TYPES THEN OddCases ELSE {})
   ELSE IF FAMILY = "cred" THEN CredCases
   ELSE IF FAMILY = "own" THEN OwnCases
+  ELSE IF FAMILY = "reuse" THEN ReuseCases
+  ELSE IF FAMILY = "many" THEN ManyCases
   ELSE IF FAMILY = "vbi" THEN VbiCases \cup VbiApiCases
   ELSE IF FAMILY = "conc" THEN {x \in ConcCases : ConcValid(x)} \cup ConcFrameCases
   ELSE Cases
@@ -494,6 +585,7 @@ Init2 == c \in Cases2 /\ pool = EmptyFn
 ProgOf2(x) ==
   IF x.kind = "sched" THEN SchedProg(x)
   ELSE IF x.kind = "schedbig" THEN SchedBigProg(x)
+  ELSE IF x.kind = "schedhuge" THEN SchedHugeProg(x)
   ELSE IF x.kind = "faultbig" THEN FaultBigProg(x)
   ELSE IF x.kind = "fault" THEN FaultProg(x)
   ELSE IF x.kind = "seq" THEN SeqProg(x)
@@ -510,6 +602,8 @@ ProgOf2(x) ==
   ELSE IF x.kind \in {"own", "ownall", "owninto"} THEN OwnProg(x)
   ELSE IF x.kind \in {"vbienc", "vbidec"} THEN VbiProg(x)
   ELSE IF x.kind = "vbiapi" THEN VbiApiProg(x)
+  ELSE IF x.kind = "reuse" THEN ReuseProg(x)
+  ELSE IF x.kind = "many" THEN ManyProg(x)
   ELSE IF x.kind = "conc" THEN ConcProg(x)
   ELSE IF x.kind = "concframes" THEN ConcFramesProg(x)
   ELSE ProgOf(x)
